@@ -419,6 +419,26 @@ func runC06(env *vk.Env) {
 	if tr.N > 0 {
 		wireJudge(env, tr, "B random compositions", "C06")
 	}
+	// strings at the top of the protocol domain: the limit is 32767 UTF-16 code units, which is up to three times as
+	// many bytes on the wire - alone, in an Ary and behind an Option
+	tr = &vk.Trace{}
+	for _, long := range []string{strings.Repeat("é", 16384), strings.Repeat("世", 10923), strings.Repeat("a", 32767)} {
+		v := toAbsBytes([]byte(long))
+		for _, t := range []wireType{{T: "str"}, {T: "option", E: &wireType{T: "str"}}} {
+			var val any = v
+			if t.T == "option" {
+				val = map[string]any{"has": true, "v": v}
+			}
+			ev := wireEncEvent(t, 0, val)
+			tr.Add(ev)
+			if ev.Panicked || ev.Err {
+				continue
+			}
+			tr.Add(wireDecEvent(t, 0, append(bytesOf(ev.Bytes), wireTail(t)...), "shorter", val, true, "valid"))
+		}
+		env.Distinct(fmt.Sprintf("long-string/%d-bytes", len(long)))
+	}
+	wireJudge(env, tr, "B strings at the top of the protocol domain", "C06")
 }
 
 func replayC06(env *vk.Env, b []byte) {
